@@ -222,9 +222,19 @@ func runScript(rnd *rand.Rand, c scriptCase, cutAt int) {
 				b = 1 + rnd.Intn(9000)
 			}
 		}
+		if bufFixed == 0 && rnd.Intn(40) == 0 {
+			b = 0 // an empty buffer is a buffer size too: nothing may be returned, lost or reported
+		}
 		t0, gotBefore := sc.Timeouts, len(got)
 		n, err := hc.Read(buf[:b])
 		run.Count("read_calls", 1)
+		if n < 0 || n > b {
+			viol("read:count-exceeds-buffer", fmt.Sprintf("Read into a buffer of %d bytes returned n=%d", b, n))
+			return
+		}
+		if b == 0 {
+			run.Count("read_calls_with_empty_buffer", 1)
+		}
 		if n > 0 && sc.Timeouts > t0 {
 			// The call returned data, but on its way it went back to the network and ran into a read timeout (on a
 			// real socket: it blocked until the deadline). If complete frames were waiting at that moment, data
@@ -242,6 +252,9 @@ func runScript(rnd *rand.Rand, c scriptCase, cutAt int) {
 		}
 		if n > 0 {
 			got = append(got, buf[:n]...)
+			for k := range buf[:b] {
+				buf[k] = 0xEE // the reader reuses its buffer; nothing may be written into it after the call
+			}
 			if len(got) > len(expected) || !bytes.Equal(got[len(got)-n:], expected[len(got)-n:len(got)]) {
 				viol("read:not-prefix", fmt.Sprintf("Read returned bytes that are not the next bytes the peer sent (after %d of %d plaintext bytes)", len(got)-n, len(expected)))
 				return
